@@ -46,32 +46,39 @@ Definition msg_term_ops (w : worker) : list op :=
         rb ++ [Proc l (ztm m) (can_end p (e_dest (wm_ev m)) (x_st (get_lp (process_msg p ck w) l)))]
   end.
 
-Definition tw := (worker * tstate)%type.
-Definition tprocess (s : tw) : tw := (process_msg p ck (fst s), run TMAX (snd s) (msg_term_ops (fst s))).
+(* [tw_ovf]: a message with a timestamp at or above TMAX (the SIMTIME_MAX sentinel) was met: its hooks are not modelled, the termination model is frozen
+   and nothing is claimed afterwards (the C runtime never sees such a timestamp: SIMTIME_MAX is the largest finite double) *)
+Record tw := mkTw { tw_w : worker; tw_t : tstate; tw_ovf : bool }.
+Definition op_time_ok (o : op) : bool :=
+  match o with Proc _ t _ => Z.ltb t TMAX | Rb _ t _ => Z.ltb t TMAX | Gvt _ _ => true end.
+Definition tprocess (s : tw) : tw :=
+  let ops := msg_term_ops (tw_w s) in
+  if negb (tw_ovf s) && forallb op_time_ok ops then mkTw (process_msg p ck (tw_w s)) (run TMAX (tw_t s) ops) (tw_ovf s)
+  else mkTw (process_msg p ck (tw_w s)) (tw_t s) true.
 Fixpoint titer (n : nat) (s : tw) : tw := match n with O => s | S k => titer k (tprocess s) end.
 Fixpoint trun_out (fuel : nat) (s : tw) : tw :=
   match fuel with
   | O => s
-  | S f => match wq_peek (fst s) with
-           | (None, w1) => (w1, snd s)
-           | (Some _, w1) => trun_out f (tprocess (w1, snd s))
+  | S f => match wq_peek (tw_w s) with
+           | (None, w1) => mkTw w1 (tw_t s) (tw_ovf s)
+           | (Some _, w1) => trun_out f (tprocess (mkTw w1 (tw_t s) (tw_ovf s)))
            end
   end.
 Definition twstep (s : tw) (o : wop) : tw :=
   match o with
   | OpP n => titer n s
-  | OpH k => (hold k (fst s), snd s)
-  | OpU i => (unhold i (fst s), snd s)
-  | OpA => (unhold_all (fst s), snd s)
-  | OpG d => let w' := announce d (fst s) in
-             (w', if Nat.eqb (k_epoch w') (k_epoch (fst s)) then snd s else step TMAX (snd s) (Gvt (k_gvt w') TMAX))
-  | OpE fuel => trun_out fuel (unhold_all (fst s), snd s)
+  | OpH k => mkTw (hold k (tw_w s)) (tw_t s) (tw_ovf s)
+  | OpU i => mkTw (unhold i (tw_w s)) (tw_t s) (tw_ovf s)
+  | OpA => mkTw (unhold_all (tw_w s)) (tw_t s) (tw_ovf s)
+  | OpG d => let w' := announce d (tw_w s) in
+             mkTw w' (if Nat.eqb (k_epoch w') (k_epoch (tw_w s)) then tw_t s else step TMAX (tw_t s) (Gvt (k_gvt w') TMAX)) (tw_ovf s)
+  | OpE fuel => trun_out fuel (mkTw (unhold_all (tw_w s)) (tw_t s) (tw_ovf s))
   end.
 
 (* termination_lp_init on every LP, after LP_INIT *)
 Definition tw_init : tw :=
   let w := w_init p in
-  (w, t_init TMAX (map (fun l => can_end p (N.of_nat l) (x_st (get_lp w l))) (seq 0 (length (k_lps w))))).
+  mkTw w (t_init TMAX (map (fun l => can_end p (N.of_nat l) (x_st (get_lp w l))) (seq 0 (length (k_lps w))))) false.
 End WT.
 
 (* what the correspondence compares: lps_to_end, max_t, and every LP's termination time *)
